@@ -168,7 +168,8 @@ ShouldBeIngress(e) == e.proto = "TCP" /\ e.global /\ ExtPort(e) = 80
 AllExposes(svcs) == UNION {KRange(svcs[i].exposes) : i \in DOMAIN svcs}
 \* "ports the tenant exposed globally": the global exposes of the service the pod belongs to (a policy selecting the
 \* pods of service s may open to the outside only what s exposes globally), by either number the tenant wrote
-\* (container port or `as` port), in any manifest of the lease deployed so far (svcs = all of them, flattened)
+\* (container port or `as` port), IN THE CURRENT MANIFEST (the one deployed last / being deployed). Only a pod whose
+\* service is not in the current manifest (it is about to be cleaned up) is judged by the manifests deployed before.
 GlobalPortsOf(svcs, name) ==
   UNION {{<<e.proto, e.port>>, <<e.proto, ExtPort(e)>>} :
            e \in {x \in UNION {KRange(svcs[i].exposes) : i \in {j \in DOMAIN svcs : svcs[j].name = name}} : x.global}}
@@ -182,14 +183,18 @@ IsDNS(port) == port[2] = 53
 
 \* C11, network clauses. Witness sets (empty = holds) so that a failure names its packet class.
 \* extra: further remote endpoints (the pods of another lease actually generated into the same cluster)
-BadIngressX(objs, svcs, extra) ==
+\* cursvcs: the services of the current manifest; allsvcs: the services of every manifest of the lease deployed so far
+\* (flattened) -- their ports (old ones included) are the ports that are tried
+AllowedFromOutside(cursvcs, allsvcs, name) ==
+  IF \E i \in DOMAIN cursvcs : cursvcs[i].name = name THEN GlobalPortsOf(cursvcs, name) ELSE GlobalPortsOf(allsvcs, name)
+BadIngressX(objs, cursvcs, allsvcs, extra) ==
   LET pols == Pols(objs) IN
   {<<t[2].tag, t[3]>> : t \in
-     {t \in LocalPods(objs) \X (Remote \cup extra) \X IngressPorts(svcs) :
+     {t \in LocalPods(objs) \X (Remote \cup extra) \X IngressPorts(allsvcs) :
         /\ t[2].kind = "ext" \/ t[2].ns # t[1].ns
         /\ Admits(pols, "Ingress", t[1], t[2], t[3])
         /\ ~FromIngressController(t[2])
-        /\ t[3] \notin GlobalPortsOf(svcs, t[1].tag)}}
+        /\ t[3] \notin AllowedFromOutside(cursvcs, allsvcs, t[1].tag)}}
 BadEgressX(objs, extra) ==
   LET pols == Pols(objs) IN
   {<<t[2].tag, t[3]>> : t \in
@@ -198,7 +203,7 @@ BadEgressX(objs, extra) ==
         /\ t[2].kind = "ext" \/ t[2].ns # t[1].ns
         /\ ~IsDNS(t[3])
         /\ Admits(pols, "Egress", t[1], t[2], t[3])}}
-BadIngress(objs, svcs) == BadIngressX(objs, svcs, {})
+BadIngress(objs, svcs) == BadIngressX(objs, svcs, svcs, {})
 BadEgress(objs) == BadEgressX(objs, {})
 \* what belongs to the lease whose namespace is ns: its Namespace object and everything stored in that namespace
 Mine(objs, ns) == {o \in objs : (o.kind = "namespace" /\ o.name = ns) \/ (o.kind # "namespace" /\ o.ans = ns)}
@@ -376,6 +381,19 @@ PolicyList(ns, r) ==
   ELSE <<MainPolicyObj(ns)>> \o [k \in DOMAIN SelectIdx(r.svcs, 1, SvcIdxWithNodePorts(r.svcs)) |->
                                    SvcPolicyObj(ns, r.svcs[SelectIdx(r.svcs, 1, SvcIdxWithNodePorts(r.svcs))[k]])]
 
+\* applyNetPolicies: apply the policies the manifest calls for, then (policies enabled) delete every managed policy of the
+\* namespace the manifest no longer calls for -- a service that stopped exposing node ports must not keep them open
+ManagedSel == [labels |-> {}, exprs |-> {[key |-> LManaged, op |-> "=", values |-> {"true"}]}]
+ApplyAndPrunePolicies(cluster, ns, r) ==
+  LET want == PolicyList(ns, r)
+      a == ApplyPolicies(cluster, want)
+      stale == {o \in a.cluster : o.kind = "netpol" /\ o.ans = ns /\ SelMatches(ManagedSel, o.labels)
+                                     /\ o.name \notin {want[i].name : i \in DOMAIN want}} IN
+  IF ~r.st.netpol THEN a
+  ELSE [acts |-> a.acts \o <<[verb |-> "list", kind |-> "netpol", ans |-> ns, sel |-> ManagedSel]>>
+                  \o (IF stale = {} THEN <<>> ELSE <<[verb |-> "delete-set", kind |-> "netpol", ans |-> ns, names |-> {o.name : o \in stale}]>>),
+        cluster |-> a.cluster \ stale]
+
 \* cleanupStaleResources: managed objects whose manifest-service label is not a current service name
 StaleSel(svcs) == [labels |-> {}, exprs |-> {[key |-> LSvc, op |-> "notin", values |-> {svcs[i].name : i \in DOMAIN svcs}],
                                               [key |-> LManaged, op |-> "=", values |-> {"true"}]}]
@@ -405,7 +423,7 @@ RoundSteps(r) ==
 Step(cluster, ns, l, r, step) ==
   CASE step.t = "namespace" ->
          ApplyOne(cluster, NamespaceObj(ns, l), LAMBDA old : [old EXCEPT !.name = ns, !.labels = LeaseLabels(ns, l)])
-    [] step.t = "netpol"   -> ApplyPolicies(cluster, PolicyList(ns, r))
+    [] step.t = "netpol"   -> ApplyAndPrunePolicies(cluster, ns, r)
     [] step.t = "manifest" ->
          ApplyOne(cluster, ManifestObj(ns, l), LAMBDA old : [old EXCEPT !.labels = LeaseLabels(ns, l)])
     [] step.t = "cleanup"  -> Cleanup(cluster, ns, r.svcs)
@@ -499,9 +517,9 @@ InvPlacement ==
   /\ \A l \in LeasesSoFar : InNamespace(Mine(cluster, NS(l)), NS(l))
 InvSandbox   == Sandboxed(cluster)
 InvLimits    == LimitsLeased(cluster, SvcSets)
-InvIngress   == MainNetSettled => BadIngressX(Mine(cluster, Ns1), MainSvcsSoFar, NeighbourPods(cluster, Ns1)) = {}
+InvIngress   == MainNetSettled => BadIngressX(Mine(cluster, Ns1), cur.rounds[LastMain].svcs, MainSvcsSoFar, NeighbourPods(cluster, Ns1)) = {}
 InvEgress    == MainNetSettled => BadEgressX(Mine(cluster, Ns1), NeighbourPods(cluster, Ns1)) = {}
-InvIngressOther == OtherNetSettled => BadIngressX(Mine(cluster, NS(PhLease(rnd))), PhRound(rnd).svcs, NeighbourPods(cluster, NS(PhLease(rnd)))) = {}
+InvIngressOther == OtherNetSettled => BadIngressX(Mine(cluster, NS(PhLease(rnd))), PhRound(rnd).svcs, PhRound(rnd).svcs, NeighbourPods(cluster, NS(PhLease(rnd)))) = {}
 InvEgressOther  == OtherNetSettled => BadEgressX(Mine(cluster, NS(PhLease(rnd))), NeighbourPods(cluster, NS(PhLease(rnd)))) = {}
 InvPositive  == (Done /\ NMain = 1 /\ cur.rounds[1].st.netpol) => NetPositive(cluster, Ns1, cur.rounds[1].svcs)
 \* after a complete Deploy the namespace holds exactly one deployment per service of the last manifest
